@@ -18,7 +18,7 @@ class Finding:
         elif isinstance(st, (ast.FunctionDef, ast.ClassDef)):
             self.construct = "def %s" % st.name
         elif isinstance(st, (ast.If, ast.For, ast.While, ast.With)):
-            head = st.test if hasattr(st, "test") else (st.iter if hasattr(st, "iter") else None)
+            head = st.test if hasattr(st, "test") else (st.iter if hasattr(st, "iter") else (st.items[0].context_expr if hasattr(st, "items") and st.items else None))
             self.construct = "%s %s" % (type(st).__name__.lower(), norm_text(head) if head is not None else "")
         elif isinstance(st, ast.AST):
             self.construct = norm_text(st)
